@@ -59,6 +59,7 @@ OPS = [
     ("split_probe", None),
     ("motion_filter", (1.5, 50.0)),
     ("crop", (0.5, 1.0)),
+    ("crop", (-1.0, 0.0)),   # a bound that is exactly zero is a bound
     ("align", (False, -1)), ("align", (True, -1)), ("align", (False, 3)),
     ("align_scale_only", None),
     ("align_origin", None),
